@@ -25,6 +25,7 @@ import (
 	"github.com/go-ap/activitypub/verifsim"
 
 	"verif.local/sim/core"
+	"verif.local/sim/sched"
 	"verif.local/sim/simrt"
 	"verif.local/sim/warm"
 	_ "verif.local/sim/props/c04"
@@ -75,6 +76,8 @@ func main() {
 		os.Exit(2)
 	}
 	warm.Gob()
+	mainG := sched.Getg()
+	simrt.IsForeign = func() bool { return sched.Getg() != mainG }
 	simrt.SiteHits = make([]bool, len(verifsim.Sites))
 	if pf := os.Getenv("VERIF_CPUPROFILE"); pf != "" {
 		f, err := os.Create(pf)
